@@ -54,9 +54,7 @@ mod proofs {
         while i < 6 { if i < n { if i > 0 { buf[k] = b','; k += 1; } let b = parts[i].as_bytes(); let mut j = 0; while j < b.len() { buf[k] = b[j]; k += 1; j += 1; } } i += 1; }
         k
     }
-    #[kani::proof] #[kani::unwind(66)] #[kani::stub(core::slice::memchr::memchr, naive_memchr)] #[kani::stub(alloc::fmt::format, stub_format)]
-    fn generate_flag_roundtrips() {
-        let bits: u32 = kani::any(); kani::assume(bits >= 1 && bits < 64);   // the empty set prints `--generate ""`, which no parser accepts
+    fn case(bits: u32) {
         let c = CodegenConfig(bits);
         let mut args: Vec<Tok> = Vec::new();
         as_args(&c, &mut args);
@@ -77,9 +75,9 @@ mod proofs {
         let mut v = got.unwrap();
         if ign_f { v &= !1; } if ign_m { v &= !8; }
         assert!(v == bits, "CodegenConfig does not round-trip through --generate");
-        kani::cover!(bits == 63, "everything");
-        kani::cover!(bits == 2, "types only");
     }
+    // concrete configurations (a symbolic one makes the rendered --generate text symbolic and the real parser intractable): all 63 non-empty sets
+    /*GENERATED*/
 }
 '''
 
@@ -110,7 +108,7 @@ impl Builder {
 #[cfg(kani)]
 mod proofs {
     use super::*;
-    #[kani::proof] #[kani::unwind(12)]
+    #[kani::proof] #[kani::unwind(16)]
     fn header_order_roundtrips() {
         let n: usize = kani::any(); kani::assume(n >= 1 && n <= 4);
         let mut hs: Vec<Hdr> = Vec::new();
@@ -135,6 +133,46 @@ mod proofs {
 '''
 
 
+
+FA_HARNESS = r"""
+#![allow(warnings)]
+pub enum ErrorKind { InvalidValue }
+pub struct Error; impl Error { pub fn raw<T>(_: ErrorKind, _: T) -> Error { Error } }
+pub struct TokenStream; impl TokenStream { pub fn from_str(_: &str) -> Result<TokenStream, ()> { Ok(TokenStream) } }
+/*PARSE_FIELD_ATTR*/
+#[cfg(kani)]
+mod proofs {
+    use super::*;
+    pub fn naive_memchr(x: u8, text: &[u8]) -> Option<usize> { let mut i = 0; while i < text.len() { if text[i] == x { return Some(i); } i += 1; } None }
+    pub fn stub_format(_: core::fmt::Arguments<'_>) -> String { String::new() }
+    fn ident() -> u8 { let b: u8 = kani::any(); kani::assume(b >= b'a' && b <= b'z'); b }
+    /// text as the as_args closure prints it: format!("{type_pat}::{field_pat}={attr}"); `attr_eq`: the attribute itself contains '=' at that index
+    fn case<const A: usize>(attr_eq: Option<usize>) {
+        let t = ident(); let f = ident();
+        let mut attr = [0u8; A]; let mut i = 0; while i < A { attr[i] = ident(); i += 1; }
+        if let Some(k) = attr_eq { attr[k] = b'='; }
+        let mut buf = [0u8; 16]; buf[0] = t; buf[1] = b':'; buf[2] = b':'; buf[3] = f; buf[4] = b'=';
+        let mut i = 0; while i < A { buf[5 + i] = attr[i]; i += 1; }
+        let s = unsafe { core::str::from_utf8_unchecked(&buf[..5 + A]) };
+        match parse_field_attr(s) {
+            Ok((ty, field, a)) => {
+                assert!(ty.as_bytes().len() == 1 && ty.as_bytes()[0] == t, "type pattern does not read back");
+                assert!(field.as_bytes().len() == 1 && field.as_bytes()[0] == f, "field pattern does not read back");
+                assert!(a.as_bytes().len() == A, "attribute text truncated or extended");
+                let mut i = 0; while i < A { assert!(a.as_bytes()[i] == attr[i], "attribute text does not read back"); i += 1; }
+                core::mem::forget(ty); core::mem::forget(field); core::mem::forget(a);
+            }
+            Err(_) => assert!(false, "--field-attr value written by as_args is rejected"),
+        }
+    }
+    #[kani::proof] #[kani::unwind(12)] #[kani::stub(core::slice::memchr::memchr, naive_memchr)] #[kani::stub(alloc::fmt::format, stub_format)]
+    fn field_attr_plain_roundtrips() { case::<2>(None) }
+    #[kani::proof] #[kani::unwind(12)] #[kani::stub(core::slice::memchr::memchr, naive_memchr)] #[kani::stub(alloc::fmt::format, stub_format)]
+    fn field_attr_with_equals_roundtrips() { case::<3>(Some(1)) }
+}
+"""
+
+
 def kernels(tier, seed):
     def gen():
         om = rd('options/mod.rs'); cli = rd('options/cli.rs'); lib = rd('lib.rs')
@@ -150,15 +188,20 @@ def kernels(tier, seed):
         impl = extract(lib, r'^impl CodegenConfig \{', what='impl CodegenConfig')
         # mechanical rewrites of the sliced closure (listed in evidence): owned strings -> tokens
         body_t = re.sub(r'("(?:[^"\\\\]|\\\\.)*")\.to_owned\(\)', r'Tok::from(\1)', body).replace('Vec<String>', 'Vec<Tok>').replace('options.join(",")', 'Tok::join(&options, ",")')
-        hs = [H('generate_flag_roundtrips', stubbing=True, timeout=900, desc='all 63 non-empty CodegenConfig values (symbolic): as_args -> --generate/--ignore-* -> parse_codegen_config = identity', sample={'config_bits': '1..=63 symbolic'})]
-        text = GEN_HARNESS.replace('/*TOK*/', TOK).replace('/*CONFIG_IMPL*/', impl).replace('/*PARSE*/', parse).replace('/*AS_ARGS*/', body_t)
+        gens, hs = [], []
+        for g in range(4):
+            vals = [v for v in range(g * 16, g * 16 + 16) if v != 0]    # the empty set prints `--generate ""`, which no parser accepts
+            gens.append('#[kani::proof] #[kani::unwind(66)] #[kani::stub(core::slice::memchr::memchr, naive_memchr)] #[kani::stub(alloc::fmt::format, stub_format)] fn generate_flag_roundtrips_%d() { %s }' % (g, ' '.join('case(%d);' % v for v in vals)))
+            hs.append(H('generate_flag_roundtrips_%d' % g, stubbing=True, timeout=900, tier='quick' if g in (0, 3) else 'thorough',
+                        desc='CodegenConfig values %d..%d: as_args -> --generate/--ignore-* -> parse_codegen_config = identity' % (vals[0], vals[-1]), sample={'configs': vals}))
+        text = GEN_HARNESS.replace('/*GENERATED*/', '\n    '.join(gens)).replace('/*TOK*/', TOK).replace('/*CONFIG_IMPL*/', impl).replace('/*PARSE*/', parse).replace('/*AS_ARGS*/', body_t)
         k = Kernel(name='generate_flag')
         k.files = {'src/lib.rs': text}
         k.harnesses = hs
         k.encoded = [enc('options/mod.rs', 'options! codegen_config: as_args closure', body), enc('options/cli.rs', 'fn parse_codegen_config', parse), enc('lib.rs', 'impl CodegenConfig', impl)]
         k.stubs = ['CodegenConfig: u32 newtype with the constants/empty/insert/contains of the bitflags type', 'clap Error::raw: unit', '-Z stubbing: memchr naive loop, fmt::format empty', 'mechanical rewrites of the as_args closure: "lit".to_owned() -> Tok::from("lit"), Vec<String> -> Vec<Tok>, options.join(",") -> Tok::join(&options, ",") (token stand-ins for heap strings; the joined token is rendered to text by the harness before the real parser runs)']
         k.assumptions = ['cli.rs applies --ignore-functions / --ignore-methods after --generate by clearing the bit (modelled in the harness)', 'the empty CodegenConfig is excluded (prints `--generate ""`)']
-        k.bounds = ['all 63 non-empty CodegenConfig values (symbolic)']
+        k.bounds = ['all 63 non-empty CodegenConfig values, concrete per call (exhaustive finite domain)']
         return k
 
     def hdr():
@@ -187,4 +230,16 @@ def kernels(tier, seed):
         k.assumptions = ['cli.rs puts the positional header into input_headers and everything after `--` into clang_args (clap; outside the claim)', 'generate() uses input_headers.last() as the main file (lib.rs:880)']
         k.bounds = ['1..4 headers, 0..1 extra clang argument']
         return k
-    return [kernel_or_error('generate_flag', gen), kernel_or_error('header_order', hdr)]
+    def fattr():
+        cli = rd('options/cli.rs')
+        pf = extract(cli, r'^fn parse_field_attr\(', what='parse_field_attr')
+        k = Kernel(name='field_attr')
+        k.files = {'src/lib.rs': FA_HARNESS.replace('/*PARSE_FIELD_ATTR*/', pf)}
+        k.harnesses = [H('field_attr_plain_roundtrips', stubbing=True, timeout=2400, weight=2, tier='thorough', desc='TYPE::FIELD=ATTR as printed by as_args reads back through parse_field_attr (attribute without "=")', sample={'shape': 'T::f=aa'}),
+                       H('field_attr_with_equals_roundtrips', stubbing=True, timeout=2400, weight=2, tier='thorough', desc='same with an attribute that itself contains "=" (e.g. doc = "...")', sample={'shape': 'T::f=a=b'})]
+        k.encoded = [enc('options/cli.rs', 'fn parse_field_attr', pf)]
+        k.stubs = ['clap Error::raw: unit', 'proc_macro2::TokenStream::from_str: always Ok (attribute syntax is not the subject)', '-Z stubbing: memchr naive loop, fmt::format empty']
+        k.assumptions = ['as_args prints format!("{type_pat}::{field_pat}={attr}") (options/mod.rs field_attr_patterns); the harness builds that text byte by byte']
+        k.bounds = ['1-byte type and field patterns, attribute of 2-3 bytes']
+        return k
+    return [kernel_or_error('generate_flag', gen), kernel_or_error('header_order', hdr), kernel_or_error('field_attr', fattr)]
